@@ -48,6 +48,10 @@ def run(ctx) -> None:
         ctx.rule(rid, text)
     for m in ("itertools._Grouper.__anext__", "itertools.GroupBy.__anext__"):
         ctx.unit(m)
+    # whole operation histories against itertools.groupby (object model, abstract evaluation)
+    from . import objmodel
+    objmodel.groupby_histories(ctx, "R16.8", depth=8 if getattr(ctx, "tier", "quick") == "thorough" and not getattr(ctx, "_shared", False) else 6)
+    ctx.floor("groupby_operations", 1500)
     if not cursor_is_single_slot(ctx):
         return
     N = Names(ctx)
@@ -215,8 +219,25 @@ class Names:
         for s_ in sinfo.node.body:
             tgt = s_.targets[0] if isinstance(s_, ast.Assign) else s_.target if isinstance(s_, ast.AnnAssign) else None
             val = uncast(s_.value) if isinstance(s_, (ast.Assign, ast.AnnAssign)) and s_.value is not None else None
-            if isinstance(tgt, ast.Name) and isinstance(val, ast.Call) and norm(val.func) in ("object", "Sentinel") :
+            if isinstance(tgt, ast.Name) and isinstance(val, ast.Call) and norm(val.func).split(".")[-1] in ("object", "Sentinel"):
                 self.sentinel = tgt.id
+        self.sentinel_is_global = False
+        if self.sentinel is None:
+            # ... or a module-level private marker that __init__ puts into the value field
+            init = sinfo.methods.get("__init__")
+            for s_ in (own_nodes(init.node) if init is not None else []):
+                if isinstance(s_, (ast.Assign, ast.AnnAssign)) and isinstance(s_.value, ast.Name):
+                    tg = s_.targets[0] if isinstance(s_, ast.Assign) else s_.target
+                    if isinstance(tg, ast.Attribute) and tg.attr == self.value:
+                        gv = None
+                        for top in sinfo.module.tree.body:
+                            ttg = top.targets[0] if isinstance(top, ast.Assign) and len(top.targets) == 1 else \
+                                top.target if isinstance(top, ast.AnnAssign) else None
+                            if isinstance(ttg, ast.Name) and ttg.id == s_.value.id and getattr(top, "value", None) is not None:
+                                gv = uncast(top.value)
+                        if isinstance(gv, ast.Call) and norm(gv.func).split(".")[-1] in ("object", "Sentinel"):
+                            self.sentinel = s_.value.id
+                            self.sentinel_is_global = True
         # the method that hands out the held item: it returns what it read from the value field
         self.consume_unit = None
         for m in sinfo.methods.values():
@@ -252,6 +273,14 @@ def _view(ctx, N, short: str):
     return ctx.inlined(ctx.unit(short), policy=private_class_policy, keep=(N.step, N.consume, "aclose"))
 
 
+def _marker_in(N, text: str) -> bool:
+    """does the expression text mention the "no item held" marker (a class attribute or a module global)?"""
+    import re
+    if getattr(N, "sentinel_is_global", False):
+        return re.search(rf"(?<![\w.]){re.escape(N.sentinel)}(?!\w)", text) is not None
+    return f".{N.sentinel}" in text
+
+
 def _sentinel_tests(ctx, u, cfg, nodes, N) -> dict:
     """branch node -> label of the edge on which *no* item is held (value field is the marker)"""
     from .common import name_value
@@ -263,7 +292,7 @@ def _sentinel_tests(ctx, u, cfg, nodes, N) -> dict:
         if isinstance(e, ast.Name):
             e = name_value(ctx, u, cfg, n, e.id)
         if isinstance(e, ast.Compare) and len(e.ops) == 1 and isinstance(e.ops[0], (ast.Is, ast.IsNot)) \
-                and f".{N.value}" in norm(e) and f".{N.sentinel}" in norm(e):
+                and f".{N.value}" in norm(e) and _marker_in(N, norm(e)):
             out[n] = "t" if isinstance(e.ops[0], ast.Is) else "f"
     return out
 
@@ -449,7 +478,7 @@ def r16_3_state(ctx, N) -> None:
         isinstance(x, ast.Attribute) and x.attr == N.value and isinstance(x.ctx, ast.Store)
         for t in n.info.get("targets", []) for x in ast.walk(t))]
     rets = [n for n in cfg.nodes if n.kind == "return" and not n.tag]
-    ok = len(resets) == 1 and len(rets) == 1 and f".{N.sentinel}" in norm(resets[0].info.get("value"))
+    ok = len(resets) == 1 and len(rets) == 1 and _marker_in(N, norm(resets[0].info.get("value")))
     if ok:
         rv = rets[0].info.get("value")
         # the returned value is the field's content read before the reset
@@ -543,7 +572,7 @@ def r16_4(ctx, N) -> None:
                         ctx.check(all(isinstance(o, (ast.Eq, ast.NotEq)) for o in c.ops), "R16.4", m, c,
                                   "user keys are compared by equality only (like itertools.groupby)", node=n)
                     elif any(isinstance(o, (ast.Is, ast.IsNot)) for o in c.ops):
-                        ok = any(norm(o) in ("self", "None") or f".{N.sentinel}" in norm(o)
+                        ok = any(norm(o) in ("self", "None") or _marker_in(N, norm(o))
                                  or {a[0] for a in ctx.vals.expr(m, o, n)} == {"sentinel"} for o in operands)
                         ctx.check(ok, "R16.4", m, c, "identity tests involve only library objects (self, None, sentinel, groups)",
                                   node=n)
